@@ -14,7 +14,8 @@ from gbasis.integrals.electron_repulsion import ElectronRepulsionIntegral, elect
 
 RULE = ("(i) all 256 quartets (l1..l4) in 0..3^4 enumerated at block level (ElectronRepulsionIntegral."
         "construct_array_contraction), exponents log-uniform 0.1-10 (0.2-5 with an f shell), K 1-3, M 1-2, geometry "
-        "class coincident / collinear / general drawn by Hypothesis; (i-b) heavy quartets: l 0-3, primitive counts 1-10 per shell "
+        "class coincident / collinear / general drawn by Hypothesis, 30 % of the quartets with ONE contraction spanning the exponent range on "
+        "all four shells; (i-b) heavy quartets: l 0-3, primitive counts 1-10 per shell "
         "(uneven) chosen so that the recursion work space (L+1)^3 (L_ket+1)^3 K1K2K3K4 falls in drawn bands 2^18..2^25.4, at block level "
         "and through the public function on the two heaviest shells; (ii) whole-basis calls on 2-3 shells with every "
         "Cartesian/spherical assignment, both notations, with and without transformation; (iii) a fixed, keyed list of "
@@ -83,7 +84,27 @@ def quartet_st(draw, ls, kmax):
     else:
         cs = draw(gen.centres(4, p_same=0.2, halves=(0.5, 2.0)))
     shells = [draw(gen.shell(l, c, kmax=kmax, mmax=2, types=("cartesian",), exp_lo=lo, exp_hi=hi)) for l, c in zip(ls, cs)]
+    shells = draw(same_contraction(shells, lo, hi))
     return {"shells": shells, "geo": geo}
+
+
+@st.composite
+def same_contraction(draw, shells, lo, hi, p=0.3):
+    """With probability p give all shells the exponents and coefficients of one contraction that spans the exponent range
+    ("the same element on every atom"; tight and diffuse primitives then meet in the bra AND in the ket, whatever the orientation)."""
+    if draw(st.floats(0, 1, allow_nan=False)) > p:
+        return shells
+    k = draw(st.integers(2, 3))
+    ex = [lo if draw(st.booleans()) else draw(gen.log_uniform(lo, 2 * lo))]
+    if k == 3:
+        ex.append(draw(gen.log_uniform(lo, hi)))
+    ex.append(hi if draw(st.booleans()) else draw(gen.log_uniform(hi / 2, hi)))
+    co = [[draw(gen.coefficient())] for _ in range(k)]
+    out = []
+    for s_ in shells:
+        c2, rep = gen.repair_cancellation(s_["l"], ex, co)
+        out.append(dict(s_, exps=list(ex), coeffs=c2, same_contraction=True))
+    return out
 
 
 def judge_quartet(case):
@@ -94,6 +115,8 @@ def judge_quartet(case):
     v.nontrivial = sum(ls) > 0 and (not coinc or sum(ls) >= 2)
     if ls[2] + ls[3] >= 2:
         v.classes.append("ket-l>=2")
+    if shells[0].get("same_contraction"):
+        v.classes.append("same-contraction")
     h = int(case_hash(case), 16)
     judge_block(v, shells, sample=h % (4 if os.environ.get("VERIF_TIER") == "thorough" else 24) == 0 and sum(ls) <= 8)
     return v
@@ -324,3 +347,5 @@ SUBCHECKS = [
     SubCheck("illcond", judge_ill, shards_ill, cases=lambda s: ill_list()[s["lo"]:s["hi"]]),
 ]
 EXHAUSTIVE = {"quartets": "all 256 (l1,l2,l3,l4) in 0..3^4", "illcond": "fixed list of %d keyed quartets" % len(ill_list())}
+
+EXPECTED_CLASSES = ["quartets/same-contraction", "heavy/uneven-K"]
